@@ -40,6 +40,8 @@ func init() {
 	commands["conc-child"] = concx.Child
 	commands["lock"] = lockx.Run
 	commands["lock-close"] = lockx.CloseWindow
+	commands["lock-window"] = lockx.LockWindow
+	commands["lock-window-child"] = lockx.LockWindowChild
 	commands["lock-worker"] = lockx.Worker
 	commands["fidelity"] = fidx.Run
 	commands["fidelity-worker"] = fidx.Worker
